@@ -172,6 +172,9 @@ func (p c06) Gen(c *run.Ctx, idx int) (json.RawMessage, error) {
 	if r.Intn(2) == 0 {
 		cs.FaultAt = r.Intn(8)
 		cs.FaultKind = c06Faults[r.Intn(len(c06Faults))]
+		if strings.HasPrefix(cs.FaultKind, "transport-") && idx%2 == 0 && cs.Cfg.MaxBatch == 0 {
+			cs.Cfg.TCP = true // default queryer factory over a real net/http transport
+		}
 	}
 	return mustJSON(cs), nil
 }
@@ -364,6 +367,15 @@ func (p c06) Exec(c *run.Ctx, idx int, raw json.RawMessage) []run.Result {
 		roots, rerr := mutationRoots(r.Merged.Schema, &sp.Op)
 		if rerr != nil {
 			return nil, false
+		}
+		if sp.Cfg.TCP && faultAt != nil {
+			// over a real net/http transport: the mutation once without fault, so that the faulted call finds a kept-alive
+			// connection (net/http replays some requests by itself when such a connection dies: a mutation must not be one)
+			r.Query(&sp.Op)
+			for _, s := range r.Services {
+				s.ResetCalls()
+			}
+			tags["over-tcp-kept-alive-connection"] = true
 		}
 		for _, s := range r.Services {
 			s := s
